@@ -271,3 +271,49 @@ def check(prog, run):
             if isinstance(n, ast.Name) and n.id in mod_mutables:
                 run.report(r, "%s:<lambda>:module-state(%s)" % (INTRO, n.id), "src/py_gql/schema/introspection.py:%d" % n.lineno,
                            "a resolver reads the module-level container %s" % n.id)
+
+    # ---- T7 ofType peels exactly one wrapper
+    r = run.rule("T7", "the resolver of __Type.ofType returns, for a List/NonNull type, exactly the `.type` of the type it was given — one "
+                       "wrapper level per step, no loop, no further unwrapping — and None otherwise: collapsing levels reports `[[T]]` "
+                       "as `[T]`", 1)
+    of = None
+    for e in m.assigns.get("__Type__", []):
+        for n in ast.walk(e):
+            if isinstance(n, ast.Call) and isinstance(n.func, ast.Name) and n.func.id == "Field" and n.args and isinstance(n.args[0], ast.Constant) \
+                    and n.args[0].value == "ofType":
+                of = n
+    shapes.require(of is not None, "C15.T7: __Type.ofType field not found")
+    res = {k.arg: k.value for k in of.keywords}.get("resolver")
+    body, pname, where = None, None, "src/py_gql/schema/introspection.py:%d" % of.lineno
+    if isinstance(res, ast.Lambda):
+        body, pname = [ast.Return(value=res.body)], res.args.args[0].arg
+    elif isinstance(res, ast.Name):
+        rf = prog.resolve_name(m, res.id)
+        if rf and rf[0] == "func":
+            body, pname = rf[1].node.body, rf[1].node.args.args[0].arg
+            where = rf[1].where()
+    if body is None:
+        raise AnalysisError("C15.T7: cannot resolve the ofType resolver")
+    r.instance("ofType resolver on parameter %s" % pname)
+    bad = None
+    for st in body:
+        for n in ast.walk(st):
+            if isinstance(n, (ast.While, ast.For)):
+                bad = "a loop"
+            if isinstance(n, ast.Call) and isinstance(n.func, ast.Name) and n.func.id in ("unwrap_type", "nullable_type"):
+                bad = "%s(...)" % n.func.id
+            if isinstance(n, ast.Attribute) and n.attr == "type" and isinstance(n.value, ast.Attribute) and n.value.attr == "type":
+                bad = "`%s`" % ast.unparse(n)
+    rets = [n for st in body for n in ast.walk(st) if isinstance(n, ast.Return) and n.value is not None]
+    for rt in rets:
+        v = rt.value
+        vals = [v.body, v.orelse] if isinstance(v, ast.IfExp) else [v]
+        for x in vals:
+            if isinstance(x, ast.Constant) and x.value is None:
+                continue
+            if not (isinstance(x, ast.Attribute) and x.attr == "type" and isinstance(x.value, ast.Name) and x.value.id == pname):
+                bad = bad or "returns `%s`" % " ".join(ast.unparse(x).split())[:50]
+    if bad:
+        run.report(r, "%s:__Type.ofType:not-one-level(%s)" % (INTRO, bad), where,
+                   "the ofType resolver contains %s: it does not return exactly `%s.type`, so nested modifiers of the same kind are "
+                   "reported collapsed or skipped" % (bad, pname))
